@@ -302,3 +302,8 @@ mod tests {
         assert_eq!(dst.len(), MAX_MSG_LEN);
     }
 }
+
+#[cfg(kani)]
+pub(crate) mod verif {
+    include!(concat!(env!("LIBP2P_VERIF"), "/hooks/webrtc_stream.rs"));
+}
